@@ -13,7 +13,7 @@ def transform(text, prog, workdir):
     return [('kmod.f90', src.to_fortran())]
 
 
-FEATURES = ('select', 'while', 'call', 'exitcycle', 'section', 'fcall', 'twod')
+FEATURES = ('select', 'while', 'call', 'exitcycle', 'section', 'fcall', 'twod', 'assoc')
 
 
 def gen_cases(ctx, n, features=FEATURES):
@@ -30,14 +30,10 @@ def run(ctx):
         c = ctx.replay['case']
         cases = [(c['prog'], c['inputs'])]
     else:
-        cases = gen_cases(ctx, 60 if ctx.quick else 1500)
+        cases = gen_cases(ctx, 90 if ctx.quick else 1500)
     results, fails, legal = F.behaviour_check(ctx, 'roundtrip', cases, transform)
 
-    def recheck(cs):
-        res, fl, _ = F.behaviour_check(ctx, 'shrink', cs, transform)
-        failed = {idx: kind for idx, kind, _ in fl}
-        return [(i in failed, failed.get(i)) for i in range(len(cs))]
-    F.report_failures(ctx, 'roundtrip', cases, results, fails, recheck)
+    F.report_failures(ctx, 'roundtrip', cases, results, fails, F.make_recheck(ctx, transform))
     ctx.cover['programs_with_legal_inputs'] = len(legal)
     if results:
         ctx.sample({'program': results[0]['text'], 'inputs': cases[0][1][:1]})
